@@ -114,6 +114,7 @@ let handle (i : string list) (o : string list) =
         with Not_found -> 0) o) in
     let cur_xml = ref 0 in
     let publish_failed = ref false in
+    let post_trace = ref [] in
     let c13_events_fail = ref None in
     let xml_seq = ref [] and xml_calls = ref 0 in   (* per publish call of one step: size to use (else cur_xml) *)
     let fdt_ok _ = (if not raptor then true else
@@ -238,17 +239,46 @@ let handle (i : string list) (o : string list) =
         else if mview <> iview then diff := Some (Printf.sprintf "op%d:%s:files-view" k (String.concat "_" t))
         else if s1.evlog <> evs then diff := Some (Printf.sprintf "op%d:%s:events" k (String.concat "_" t));
         st := s1)
+      end else begin
+        (* after the first disagreement the model state is no longer meaningful, but what the implementation put
+           on the wire still is: the trace-only predicates (C11, C12 wire) go on judging it *)
+        let t = split_ws opstr in
+        (match t with
+         | ["q"; now] ->
+           let nowz = ms (int_of_string now) in
+           let seq = (if head = "q=-" || head = "q=HANG" then [] else String.split_on_char ',' (String.sub head 2 (String.length head - 2))) in
+           List.iter (fun d -> let (ir, npk, listing) = parse_desc d in
+                       post_trace := TRead (nowz, ir, nat_of_int npk, listing) :: !post_trace) seq
+         | _ ->
+           (try
+              let mop = mk_op t head in
+              let iout = impl_out head in
+              let tev = (match mop, iout with
+                  | OpAdd (od, start, _), OutAdd ok -> Some (TAdd (od, start, ok))
+                  | OpPublish now, OutPublish ok -> Some (TPublish (now, ok))
+                  | OpRemove toi, OutRemove ok -> Some (TRemove (toi, ok))
+                  | OpTrigger (toi, ts), OutTrigger ok -> Some (TTrigger (toi, ts, ok))
+                  | OpSetComplete, _ -> Some TComplete
+                  | OpRead now, OutRead r ->
+                    let (npk, listing) = (match r with
+                        | RFdt _ -> let (_, npk, l) = parse_desc (String.sub head 2 (String.length head - 2)) in (nat_of_int npk, l)
+                        | _ -> (O, None)) in
+                    Some (TRead (now, r, npk, listing))
+                  | _, _ -> None) in
+              (match tev with Some e -> post_trace := e :: !post_trace | None -> ())
+            with _ -> ()))
       end) (List.combine ops toks);
     let tr = List.rev !trace in
     let evs_only = List.map fst tr in
+    let evs_wire = evs_only @ List.rev !post_trace in
     let npkts = List.length (List.filter (fun e -> match e with TRead (_, (RObj _ | RFdt _), _, _) -> true | _ -> false) evs_only) in
     (* predicates on what the implementation did *)
     let pred_fail =
-      if prop = "c11" then (if p_C11 evs_only then None
+      if prop = "c11" then (if p_C11 evs_wire then None
                             else if known_D27 full !publish_failed then Some "KNOWN:D27"
                             else Some "P_C11_announce_before_send")
       else if prop = "c12" then begin
-        if not (p_C12_wire evs_only) then Some "P_C12_wire"
+        if not (p_C12_wire evs_wire) then Some "P_C12_wire"
         else begin
           (* counter check after every op: objects state = fold of the trace prefix *)
           let bad = List.exists (fun (plen, view) ->
